@@ -6,21 +6,32 @@
 
 use std::collections::{BTreeMap, HashMap};
 use std::sync::Arc;
+use std::time::Duration;
 
 use parking_lot::Mutex;
+use swimos::agent::agent_lifecycle::item_event::ItemEvent;
+use swimos::agent::agent_lifecycle::on_init::OnInit;
+use swimos::agent::agent_lifecycle::on_start::OnStart;
+use swimos::agent::agent_lifecycle::on_stop::OnStop;
+use swimos::agent::agent_lifecycle::on_timer::OnTimer;
 use swimos::agent::agent_lifecycle::HandlerContext;
-use swimos::agent::event_handler::{BoxEventHandler, BoxHandlerAction, EventHandler, HandlerActionExt, Sequentially};
-use swimos::agent::lanes::{CommandLane, MapLane, ValueLane};
+use swimos::agent::event_handler::{
+    join, join3, ActionContext, BoxEventHandler, BoxHandlerAction, EventHandler, EventHandlerError, HandlerAction, HandlerActionExt, Sequentially, SideEffects,
+};
+use swimos::agent::lanes::{CommandLane, DemandLane, DemandMapLane, MapLane, ValueLane};
 use swimos::agent::stores::{MapStore, ValueStore};
 use swimos::agent::{lifecycle, projections, AgentLaneModel};
+use swimos_agent::AgentMetadata;
 use swimos_form::Form;
 use tokio::sync::oneshot;
 
-use crate::program::{map_digest, Ev, Event, MapSnap, Node, NodeId, Program, N_MAP, N_VAL};
+use crate::program::{combine2, combine3, map_digest, param_result, try_fails, Ev, Event, MapSnap, Node, NodeId, Program, N_MAP, N_VAL, PARAM_NAMES};
 
 pub const CMD: &str = "cmd";
 pub const VAL_LANES: [&str; 3] = ["v0", "v1", "v2"];
 pub const MAP_LANES: [&str; 2] = ["m0", "m1"];
+pub const DEMAND: &str = "d0";
+pub const DEMAND_MAP: &str = "dm0";
 
 #[derive(Form, Clone, Debug, PartialEq, Eq)]
 #[form(tag = "run")]
@@ -44,6 +55,9 @@ pub struct HAgent {
     s0: ValueStore<i64>,
     #[item(transient)]
     ms0: MapStore<i32, i64>,
+    /// Lane kinds whose handler *produces* the value (coverage gap 18).
+    d0: DemandLane<i64>,
+    dm0: DemandMapLane<i32, i64>,
 }
 
 /// A suspended future waiting for the harness.
@@ -56,11 +70,13 @@ pub struct Shared {
     pub trace: Mutex<Vec<Ev>>,
     /// Pending suspended futures in the order their `suspend` leaves executed.
     pub gates: Mutex<Vec<Gate>>,
+    /// Results (`is_ok`) handed to the `on_done` callbacks of `open_lane` (observation only).
+    pub lanes_opened: Mutex<Vec<bool>>,
 }
 
 impl Shared {
     pub fn new(prog: Program) -> Arc<Shared> {
-        Arc::new(Shared { prog, trace: Mutex::new(vec![]), gates: Mutex::new(vec![]) })
+        Arc::new(Shared { prog, trace: Mutex::new(vec![]), gates: Mutex::new(vec![]), lanes_opened: Mutex::new(vec![]) })
     }
 
     fn log(&self, ev: Ev) {
@@ -231,6 +247,103 @@ pub fn interp(sh: &Arc<Shared>, id: NodeId, env: i64) -> Act {
             let s2 = sh.clone();
             interp(sh, a, env).and_then(move |r: i64| interp(&s2, b, r)).boxed()
         }
+        // ---- extension: the other documented combinators ---------------------------------------
+        Node::AndThenCtx(a, lane, b) => {
+            let s2 = sh.clone();
+            interp(sh, a, env)
+                .and_then_contextual(move |agent: &HAgent, r: i64| {
+                    // The function reads the item directly from the agent it is handed; what it
+                    // saw is recorded when the handler it produced executes.
+                    let v = match lane {
+                        0 => agent.v0.read(|v| *v),
+                        1 => agent.v1.read(|v| *v),
+                        2 => agent.v2.read(|v| *v),
+                        _ => agent.s0.read(|v| *v),
+                    };
+                    let ctx: HandlerContext<HAgent> = HandlerContext::default();
+                    let s3 = s2.clone();
+                    ctx.effect(move || s3.log(Ev::CtxRead { node: id, lane, v })).followed_by(interp(&s2, b, r))
+                })
+                .boxed()
+        }
+        Node::AndThenTry(a, modulus, b) => {
+            let s2 = sh.clone();
+            interp(sh, a, env)
+                .and_then_try(move |r: i64| if try_fails(modulus, r) { Err(EventHandlerError::EffectError(Box::new(ProgramFail))) } else { Ok(interp(&s2, b, r)) })
+                .boxed()
+        }
+        Node::Join(a, b) => join(interp(sh, a, env), interp(sh, b, env)).map(|(x, y): (i64, i64)| combine2(x, y)).boxed(),
+        Node::Join3(a, b, c) => join3(interp(sh, a, env), interp(sh, b, env), interp(sh, c, env)).map(|(x, y, z): (i64, i64, i64)| combine3(x, y, z)).boxed(),
+        Node::Opt(child) => {
+            let h: Option<Act> = child.map(|c| interp(sh, c, env));
+            // (`Option::map` would shadow the combinator.)
+            HandlerActionExt::<HAgent>::map(h, move |r: Option<i64>| r.unwrap_or(env)).boxed()
+        }
+        Node::Effects(n) => {
+            let items = (0..n).map(move |i| {
+                s.log(Ev::EffectItem { node: id, i });
+                i
+            });
+            HandlerActionExt::<HAgent>::map(SideEffects::from(items), move |done: Vec<u8>| env.wrapping_add(done.len() as i64)).boxed()
+        }
+        Node::Seq(i) => {
+            let hs: Vec<BoxEventHandler<'static, HAgent>> = sh.prog.seqs[i as usize].iter().map(|c| interp(sh, *c, env).discard().boxed()).collect();
+            Sequentially::new(hs).map(move |_| env).boxed()
+        }
+        Node::GetParam(name) => ctx
+            .get_parameter(PARAM_NAMES[name as usize])
+            .map(move |value: Option<String>| {
+                let r = param_result(&value);
+                s.log(Ev::Param { node: id, name, value });
+                r
+            })
+            .boxed(),
+        Node::WithParams => ctx
+            .with_parameters(move |params: &HashMap<String, String>| {
+                let n = params.len() as u32;
+                let pid = params.get("id").and_then(|p| p.parse::<i64>().ok()).unwrap_or(-1);
+                s.log(Ev::Params { node: id, n, id: pid });
+                (n as i64) * 1000 + pid
+            })
+            .boxed(),
+        Node::GetUri => ctx
+            .get_agent_uri()
+            .map(move |uri: swimos_utilities::routing::RouteUri| {
+                s.log(Ev::Uri { node: id, uri: uri.to_string() });
+                env
+            })
+            .boxed(),
+        Node::Timer { delay, id: timer } => ctx
+            .effect(move || s.log(Ev::TimerSet { node: id, id: timer, delay }))
+            .followed_by(ctx.schedule_timer_event(Duration::from_millis(delay as u64), timer as u64))
+            .map(move |_| env)
+            .boxed(),
+        // ---- extension: other lane kinds -------------------------------------------------------
+        Node::Cue => ctx.effect(move || s.log(Ev::Cue { node: id })).followed_by(ctx.cue(HAgent::D0)).map(move |_| env).boxed(),
+        Node::CueKey(k) => {
+            let key = k.eval(env);
+            ctx.effect(move || s.log(Ev::CueKey { node: id, key })).followed_by(ctx.cue_key(HAgent::DM0, key)).map(move |_| env).boxed()
+        }
+        Node::OpenLane(child) => {
+            let s2 = sh.clone();
+            let name = format!("dyn{id}");
+            ctx.effect(move || s.log(Ev::OpenLane { node: id }))
+                .followed_by(ctx.open_value_lane(&name, move |result| {
+                    // Whether a derived agent can take the lane is not the subject here (it cannot:
+                    // the request completes with an error); the order of the handler is.
+                    let ctx: HandlerContext<HAgent> = HandlerContext::default();
+                    let s3 = s2.clone();
+                    let ok = result.is_ok();
+                    ctx.effect(move || {
+                        s3.lanes_opened.lock().push(ok);
+                        s3.log(Ev::LaneOpened { node: id })
+                    })
+                    .followed_by(interp(&s2, child, 0))
+                    .discard()
+                }))
+                .map(move |_| env)
+                .boxed()
+        }
     }
 }
 
@@ -249,6 +362,64 @@ impl HLifecycle {
             Some(root) => log.followed_by(interp(&self.sh, *root, env)).discard().boxed(),
             None => log.boxed(),
         }
+    }
+
+    /// Handler of an event that *produces* a value (`on_cue`, `on_cue_key`): entry record, then
+    /// the tree; the value is the result of the tree (the input when there is no tree).
+    fn top_value(&self, event: Event, entry: Ev, env: i64) -> Act {
+        let ctx: HandlerContext<HAgent> = HandlerContext::default();
+        let s = self.sh.clone();
+        let log = ctx.effect(move || s.log(entry));
+        match self.sh.prog.table.get(&event) {
+            Some(root) => log.followed_by(interp(&self.sh, *root, env)).boxed(),
+            None => log.map(move |_| env).boxed(),
+        }
+    }
+
+    /// The derived lifecycle plus `on_timer` (for which the `#[lifecycle]` macro has no attribute).
+    pub fn with_timer(self) -> impl swimos::agent::agent_lifecycle::AgentLifecycle<HAgent> + Clone + Send + Sync + 'static {
+        WithTimer { timer: self.clone(), inner: self.into_lifecycle() }
+    }
+}
+
+/// Delegates every event to the derived lifecycle except `on_timer`.
+#[derive(Clone)]
+struct WithTimer<L> {
+    timer: HLifecycle,
+    inner: L,
+}
+
+impl<L: OnInit<HAgent>> OnInit<HAgent> for WithTimer<L> {
+    fn initialize(&self, action_context: &mut ActionContext<HAgent>, meta: AgentMetadata, context: &HAgent) {
+        self.inner.initialize(action_context, meta, context)
+    }
+}
+
+impl<L: OnStart<HAgent>> OnStart<HAgent> for WithTimer<L> {
+    fn on_start(&self) -> impl EventHandler<HAgent> + '_ {
+        self.inner.on_start()
+    }
+}
+
+impl<L: OnStop<HAgent>> OnStop<HAgent> for WithTimer<L> {
+    fn on_stop(&self) -> impl EventHandler<HAgent> + '_ {
+        self.inner.on_stop()
+    }
+}
+
+impl<L: Send> OnTimer<HAgent> for WithTimer<L> {
+    fn on_timer(&self, timer_id: u64) -> impl EventHandler<HAgent> + '_ {
+        self.timer.top(Event::Timer(timer_id.min(255) as u8), Ev::OnTimer { id: timer_id }, timer_id as i64)
+    }
+}
+
+impl<L: ItemEvent<HAgent>> ItemEvent<HAgent> for WithTimer<L> {
+    type ItemEventHandler<'a> = L::ItemEventHandler<'a>
+    where
+        Self: 'a;
+
+    fn item_event<'a>(&'a self, context: &HAgent, item_name: &'a str) -> Option<Self::ItemEventHandler<'a>> {
+        self.inner.item_event(context, item_name)
     }
 }
 
@@ -344,6 +515,16 @@ impl HLifecycle {
     fn m1_clear(&self, _context: HandlerContext<HAgent>, prev: BTreeMap<i32, i64>) -> impl EventHandler<HAgent> {
         let n = prev.len() as i64;
         self.top(Event::OnClear(1), Ev::OnClear { lane: 1, prev: prev.snap() }, n)
+    }
+
+    #[on_cue(d0)]
+    fn d0_cue(&self, _context: HandlerContext<HAgent>) -> impl HandlerAction<HAgent, Completion = i64> {
+        self.top_value(Event::OnCue, Ev::OnCue, 0)
+    }
+
+    #[on_cue_key(dm0)]
+    fn dm0_cue_key(&self, _context: HandlerContext<HAgent>, key: i32) -> impl HandlerAction<HAgent, Completion = Option<i64>> {
+        self.top_value(Event::OnCueKey, Ev::OnCueKey { key }, key as i64).map(Some)
     }
 
     #[on_event(s0)]
